@@ -17,10 +17,17 @@ Scenario: two values.  value ::= :b 0|1 | :i <ty 0..5> <z> | :d <bits> <tolbits>
               (andReturnValue / the C table's andReturnXValue nA times) | :data / :datac ONE slot of mock().setData / mock_c()->setXData (nA times under one name)
      object A (in the box) receives the nA values in order, object B (a MockNamedValue) the nB values; A is read through the 13
      accessors of the family (:nv for :named and :data; for :ret / :retc also the ten call families) and compared with B both ways
+  or by-content values AT THE EDGES OF THEIR REPRESENTATION, through one of three interfaces:
+  :em <iface> <arena> <ref> <len> <ref> <len>   memory buffers (ref, len); ref ::= ~ (a NULL pointer; len must be 0) | offset into the arena
+  :es <iface> <arena> <ref> <ref>               C strings at ref (the arena is followed by one NUL); ~ = a NULL char pointer
+  :ev <iface> <value> <value>                   any two values, payloads apart
+     iface    :eq MockNamedValue::equals both ways | :cpp mock().expectOneCall("f").withParameter("p", first) + mock().actualCall("f")
+              .withParameter("p", second), then the sides swapped | :c the same through mock_c() (withXParameters / withMemoryBufferParameter)
 Observation: equals(a,b) equals(b,a) and the six integer getters applied to a ('~' = the getter failed the test);
   for :rd what came back: :b x | :i z | :d bits | :s content | :a addr | :m bytes | :fail (test failed / tag names another member);
   for :ru A.equals(B) B.equals(A) and the 13 accessor results (bool, the six integer ones, double, string, void*, const void*, function
-  pointer, memory buffer), each as for :rd."""
+  pointer, memory buffer), each as for :rd;
+  for :em / :es / :ev two flags: equal / the call was fulfilled (first value on the expectation side), and the same with the sides swapped."""
 import itertools
 from vlib import tz, tb
 ID = "C09"
@@ -42,11 +49,19 @@ RULE = ("exhaustive over the 36 integer type pairs x boundary lattice {min, -2^3
         "leave under a narrower member (non-zero upper half, sign bits, double and pointer bit patterns) -- read through all 13 accessors "
         "and compared both ways with (a) a new object holding the last value, (b) a new object holding the EARLIER value, (c) the same "
         "integer in another type on an object that was itself re-used; three stores in a row; the ten call families on a re-used return "
-        "value; thorough adds random store sequences up to 4 + 3 long. non-trivial for :ru = some object received more than one store")
+        "value; thorough adds random store sequences up to 4 + 3 long. non-trivial for :ru = some object received more than one store; "
+        "edges (:em / :es / :ev): for every small arena every ordered pair of {NULL with size 0, every window incl. the empty ones at every offset and "
+        "one past the end} through equals, the C++ mock interface and the C table (so: size 0 with NULL on the expectation side / the actual side / "
+        "both / neither, the same object on both sides, same bytes elsewhere); every ordered pair of {NULL, every char pointer} of every small string "
+        "arena; frames of 1..257 bytes against a copy, a copy with the last / first / a middle byte changed, one byte shorter or longer, also against "
+        "(NULL, 0) and an empty window; every pair of the boundary integers x 6 x 6 types and all pairs of the other kinds through both mock "
+        "interfaces; thorough adds random arenas / windows / values. non-trivial for an edge scenario = the two values are of one kind")
 ASSUMPTIONS = ["LP64 data model (int 32, long 64, long long 64)", "values are in range of their declared C type (setValue takes a T)",
                "reads: one expected call with the return value, one matching actual call, the unscoped mock(); defaults of the accessor's own type",
                "re-used objects: little-endian LP64 union layout (first 8 bytes shared by all members, the tolerance in the second 8); "
-               "andReturnValue(double) / setData(double) store the default tolerance 0.005"]
+               "andReturnValue(double) / setData(double) store the default tolerance 0.005",
+               "edges: a memory buffer is (NULL, 0) or lies inside an object (a NULL address with a size that is not 0 is no buffer); one expectation with one "
+               "parameter, one actual call, the unscoped mock(); on the actual side of a mock interface a double carries no tolerance"]
 LO = [-(1 << 31), 0, -(1 << 63), 0, -(1 << 63), 0]
 HI = [(1 << 31) - 1, (1 << 32) - 1, (1 << 63) - 1, (1 << 64) - 1, (1 << 63) - 1, (1 << 64) - 1]
 LATTICE = sorted(set([-(1 << 63), -(1 << 63) + 1, -(1 << 31) - 1, -(1 << 31), -(1 << 31) + 1, -129, -128, -2, -1, 0, 1, 2, 127, 128, 255, 256,
@@ -356,6 +371,157 @@ def reuse_family(tier, rng):
 
 
 
+# ---- by-content values at the edges of their representation ----
+IFACES = [":eq", ":cpp", ":c"]
+
+
+def eref(r):
+    return "~" if r is None else "%x" % r
+
+
+def em(ifc, ar, ra, la, rb, lb):
+    return ":em %s %s %s %x %s %x" % (ifc, tb(ar), eref(ra), la, eref(rb), lb)
+
+
+def es(ifc, ar, ra, rb):
+    return ":es %s %s %s %s" % (ifc, tb(ar), eref(ra), eref(rb))
+
+
+def ev(ifc, a, b):
+    return ":ev %s %s %s" % (ifc, a, b)
+
+
+def em_parts(s):
+    t = s.split()
+    ar = bytes.fromhex(t[2][1:])
+    r = lambda x: None if x == "~" else int(x, 16)
+    return t[1], ar, r(t[3]), int(t[4], 16), r(t[5]), int(t[6], 16)
+
+
+def es_parts(s):
+    t = s.split()
+    r = lambda x: None if x == "~" else int(x, 16)
+    return t[1], bytes.fromhex(t[2][1:]), r(t[3]), r(t[4])
+
+
+def ev_parts(s):
+    t = s.split()
+    n = vlen(t[2])
+    return t[1], t[2:2 + n], t[2 + n:]
+
+
+FRAME_LENS = [1, 2, 3, 4, 7, 8, 9, 15, 16, 17, 31, 32, 33, 63, 64, 65, 127, 128, 255, 256, 257]
+
+
+def frame_variants(x, rng):
+    """(label, other buffer) for a frame x: what differs from x"""
+    n = len(x)
+    flip = lambda i: x[:i] + bytes([x[i] ^ (1 << rng.randrange(8))]) + x[i + 1:]
+    vs = [("copy", x), ("last byte", flip(n - 1)), ("first byte", flip(0)), ("shorter", x[:-1]), ("longer", x + bytes([rng.randrange(256)]))]
+    if n > 2:
+        vs.append(("middle byte", flip(rng.randrange(1, n - 1))))
+    return vs
+
+
+def edge_family(tier, rng):
+    out = []
+    quick = tier == "quick"
+    # every ordered pair of {NULL, every window} / {NULL, every char pointer} of every small arena, through every interface
+    for ar in AL_MEM:
+        wins = [(None, 0)] + [(o, l) for o in range(len(ar) + 1) for l in range(len(ar) - o + 1)]
+        for ifc in IFACES:
+            if quick and ifc != ":eq" and len(ar) > 3:
+                # the mock interfaces on the larger arenas: every pair that has an empty or a NULL side, and a sample of the rest
+                pairs = [(a, b) for a in wins for b in wins if a[1] == 0 or b[1] == 0 or a == b] + [(rng.choice(wins), rng.choice(wins)) for _ in range(60)]
+            else:
+                pairs = [(a, b) for a in wins for b in wins]
+            out += [em(ifc, ar, a[0], a[1], b[0], b[1]) for (a, b) in pairs]
+    for ar in AL_STR:
+        refs = [None] + list(range(len(ar) + 1))
+        out += [es(ifc, ar, a, b) for ifc in IFACES for a in refs for b in refs]
+    # frames: a copy, one byte changed (last / first / middle), one byte shorter / longer; against (NULL, 0) and the empty windows
+    for n in FRAME_LENS:
+        x = bytes(rng.randrange(256) for _ in range(n))
+        for (_, y) in frame_variants(x, rng):
+            ar = x + y
+            for ifc in (IFACES if n <= 33 or not quick else [rng.choice(IFACES)]):
+                out += [em(ifc, ar, 0, n, n, len(y)), em(ifc, ar, n, len(y), 0, n)]
+            out.append(ev(rng.choice(IFACES[1:]), ":m " + tb(x), ":m " + tb(y)))
+        ifc = rng.choice(IFACES)
+        out += [em(ifc, x, 0, n, None, 0), em(ifc, x, None, 0, 0, n), em(ifc, x, 0, n, n, 0), em(ifc, x, n, 0, 0, n), em(ifc, x, 0, n, 0, n),
+                em(ifc, x, n, 0, None, 0), em(ifc, x, None, 0, n, 0), em(ifc, x, 0, 0, n, 0)]
+    # every kind through the two mock interfaces: the boundary integers in all 36 type pairs, all pairs of the other kinds
+    ints = [(t, z) for t in range(6) for z in RLAT if LO[t] <= z <= HI[t]]
+    for (t1, z1), (t2, z2) in itertools.product(ints, ints):
+        if quick and z1 != z2 and rng.random() < 0.8:
+            continue
+        out.append(ev(IFACES[1 + (t1 + t2 + (z1 & 1)) % 2], ival(t1, z1), ival(t2, z2)))
+    oth = [":b 0", ":b 1"]
+    oth += [":d %x %x" % (d, t) for d in DBL[:10] for t in (0, 0x3fe0000000000000, 0x7ff0000000000000)]
+    oth += [":s " + tb(x) for x in STRS]
+    for tag in (":p", ":cp", ":f"):
+        oth += ["%s %x" % (tag, a) for a in (0, 0x1000, 0x1008)]
+    oth += [":m " + tb(m) for m in MEMS]
+    oth += [ival(0, -1), ival(1, 1), ival(5, (1 << 64) - 1), ival(0, 0)]
+    kinds = {}
+    for v in oth:
+        kinds.setdefault(v.split()[0], []).append(v)
+    for ifc in IFACES[1:]:
+        for k1, l1 in kinds.items():
+            for k2, l2 in kinds.items():
+                if k1 == k2:
+                    out += [ev(ifc, a, b) for a in l1 for b in l2 if k1 != ":d" or not quick or rng.random() < 0.3]
+                else:
+                    out += [ev(ifc, a, b) for a in l1[:3] for b in l2[:3]]
+    # random arenas, windows, values
+    n = 600 if quick else 40000
+    for _ in range(n):
+        ifc = rng.choice(IFACES)
+        c = rng.random()
+        ln = rng.randrange(0, 41)
+        per = rng.choice([1, 2, 3, max(ln, 1)])
+        unit = bytes(rng.choice([0, 0x61, 0x62, 0xff, rng.randrange(256)]) for _ in range(per))
+        ar = (unit * (ln + 1))[:ln]
+        if c < 0.55:
+            def win():
+                k = rng.random()
+                if k < 0.2:
+                    return (None, 0)
+                o = rng.randrange(ln + 1)
+                return (o, 0) if k < 0.4 else (o, rng.randrange(ln - o + 1))
+            a = win()
+            b = win()
+            if rng.random() < 0.4 and b[0] is not None:
+                l = min(a[1], ln - b[0])
+                a, b = (a[0], l), (b[0], l)
+            out.append(em(ifc, ar, a[0], a[1], b[0], b[1]))
+        elif c < 0.75:
+            r = lambda: None if rng.random() < 0.25 else rng.randrange(ln + 1)
+            out.append(es(ifc, ar, r(), r()))
+        else:
+            t1, t2 = rng.randrange(6), rng.randrange(6)
+            z1 = rng.choice(LATTICE) + rng.randrange(-2, 3)
+            z1 = min(max(z1, LO[t1]), HI[t1])
+            z2 = z1 if rng.random() < 0.6 and LO[t2] <= z1 <= HI[t2] else min(max(rng.choice(LATTICE), LO[t2]), HI[t2])
+            out.append(ev(rng.choice(IFACES[1:]), ival(t1, z1), ival(t2, z2)))
+    return out
+
+
+def edge_relation(s):
+    """which side is NULL, and how the two lengths lie to each other (buffers) / which side is NULL (strings)"""
+    t = s.split()
+    if t[0] == ":em":
+        ifc, ar, ra, la, rb, lb = em_parts(s)
+        nul = {(True, True): "both NULL", (True, False): "expectation NULL", (False, True): "actual NULL",
+               (False, False): "same address" if ra == rb else "no NULL"}[(ra is None, rb is None)]
+        ln = "both empty" if la == 0 and lb == 0 else ("one empty" if la == 0 or lb == 0 else ("same length" if la == lb else "different length"))
+        return nul + ", " + ln
+    ifc, ar, ra, rb = es_parts(s)
+    return {(True, True): "both NULL", (True, False): "first NULL", (False, True): "second NULL",
+            (False, False): "same pointer" if ra == rb else "no NULL"}[(ra is None, rb is None)]
+
+
+
 def others():
     vs = [":b 0", ":b 1"]
     vs += [":d %x %x" % (d, t) for d in DBL for t in (0, 0x3fe0000000000000, 0x7ff0000000000000, 0x7ff8000000000000, 0xbff0000000000000)]
@@ -390,6 +556,7 @@ def generate(tier, rng):
     out += alias_family(tier, rng)
     out += read_family(tier, rng)
     out += reuse_family(tier, rng)
+    out += edge_family(tier, rng)
     n = 3000 if tier == "quick" else 200000
     for _ in range(n):
         t1, t2 = rng.randrange(6), rng.randrange(6)
@@ -430,8 +597,11 @@ def nontrivial(s):
         return len(a) > 1 or len(b) > 1
     if t[0] == ":rd":
         return t[4] != ":none"
-    if t[0] in (":am", ":as"):
+    if t[0] in (":am", ":as", ":em", ":es"):
         return True
+    if t[0] == ":ev":
+        ifc, a, b = ev_parts(s)
+        return a[0] == b[0]
     return t[0] == t[3 if t[0] in (":i", ":d") else 2]
 
 
@@ -471,6 +641,11 @@ def classify(s):
                 "read via store path %s" % via]
     if t[0] in (":am", ":as"):
         return ["%s one allocation: %s" % ("buffers in" if t[0] == ":am" else "strings in", alias_relation(s))]
+    if t[0] in (":em", ":es"):
+        return ["edge %s via %s: %s" % ("buffers" if t[0] == ":em" else "strings", t[1], edge_relation(s))]
+    if t[0] == ":ev":
+        ifc, a, b = ev_parts(s)
+        return ["edge values via %s: %s/%s" % (ifc, a[0], b[0])]
     k2 = t[3 if t[0] in (":i", ":d") else 2]
     if t[0] == ":i" and k2 == ":i":
         return ["int(%s,%s)" % (t[1], t[4])]
@@ -487,6 +662,13 @@ def signature(s, o):
         return "read %s %s of stored %s" % (fam, acc, stored_kind(st))
     if t[0] in (":am", ":as"):
         return "%s in one allocation, %s => %s" % ("memory buffers" if t[0] == ":am" else "strings", alias_relation(s), " ".join(o.split()[:2]))
+    if t[0] in (":em", ":es"):
+        return "edge %s: %s => %s" % ("memory buffers" if t[0] == ":em" else "strings", edge_relation(s), o)
+    if t[0] == ":ev":
+        ifc, a, b = ev_parts(s)
+        if a[0] == ":i" and b[0] == ":i":
+            return "edge values via %s: int pair types %s,%s" % (ifc, a[1], b[1])
+        return "edge values via %s: %s %s => %s" % (ifc, " ".join(a), " ".join(b), o)
     if t[0] == ":i" and t[3] == ":i":
         return "int pair types %s,%s" % (t[1], t[4])
     return s + " => " + o
@@ -543,6 +725,68 @@ def shrink(s):
             for c in cands:
                 yield rd(fam, via, acc, ival(ty, c), " ".join(d))
         return
+    if t[0] == ":em":
+        # the plainest interface, the unused arena bytes cut, shorter windows, plain bytes (every candidate stays a valid scenario)
+        ifc, ar, ra, la, rb, lb = em_parts(s)
+        if ifc != ":eq":
+            yield em(":eq", ar, ra, la, rb, lb)
+        if ifc == ":c":
+            yield em(":cpp", ar, ra, la, rb, lb)
+        used = [(r, l) for (r, l) in ((ra, la), (rb, lb)) if r is not None]
+        lo = min([r for (r, l) in used] + [len(ar)]); hi = max([r + l for (r, l) in used] + [lo])
+        if lo > 0 or hi < len(ar):
+            sh = lambda r: None if r is None else r - lo
+            yield em(ifc, ar[lo:hi], sh(ra), la, sh(rb), lb)
+        if la > 0 and lb > 0:
+            yield em(ifc, ar, ra, la - 1, rb, lb - 1)
+            yield em(ifc, ar, ra, la // 2, rb, lb // 2)
+            yield em(ifc, ar, ra + 1, la - 1, rb + 1, lb - 1)
+        if la > 0:
+            yield em(ifc, ar, ra, la - 1, rb, lb)
+        if lb > 0:
+            yield em(ifc, ar, ra, la, rb, lb - 1)
+        if ra is not None and rb is not None and ra != rb:
+            if ra + lb <= len(ar):
+                yield em(ifc, ar, ra, la, ra, lb)
+            elif rb + la <= len(ar):
+                yield em(ifc, ar, rb, la, rb, lb)
+        if any(c != 0x61 for c in ar):
+            yield em(ifc, b"a" * len(ar), ra, la, rb, lb)
+        return
+    if t[0] == ":es":
+        ifc, ar, ra, rb = es_parts(s)
+        if ifc != ":eq":
+            yield es(":eq", ar, ra, rb)
+        if ifc == ":c":
+            yield es(":cpp", ar, ra, rb)
+        refs = [r for r in (ra, rb) if r is not None]
+        lo = min(refs + [len(ar)])
+        if lo > 0:
+            yield es(ifc, ar[lo:], None if ra is None else ra - lo, None if rb is None else rb - lo)
+        if len(ar) > max(refs + [0]):
+            yield es(ifc, ar[:-1], ra, rb)
+        return
+    if t[0] == ":ev":
+        ifc, a, b = ev_parts(s)
+        if ifc == ":c":
+            yield ev(":cpp", " ".join(a), " ".join(b))
+        if a[0] == ":i" and b[0] == ":i":
+            ta, tb_, za, zb = int(a[1], 16), int(b[1], 16), int(a[2], 16), int(b[2], 16)
+            if za == zb:
+                for c in sorted(set(c for c in RLAT + [7, za // 2] if abs(c) < abs(za) and LO[ta] <= c <= HI[ta] and LO[tb_] <= c <= HI[tb_]), key=abs):
+                    yield ev(ifc, ival(ta, c), ival(tb_, c))
+            else:
+                for c in sorted(set(c for c in RLAT + [7, za // 2] if abs(c) < abs(za) and c != zb and LO[ta] <= c <= HI[ta]), key=abs):
+                    yield ev(ifc, ival(ta, c), " ".join(b))
+                for c in sorted(set(c for c in RLAT + [7, zb // 2] if abs(c) < abs(zb) and c != za and LO[tb_] <= c <= HI[tb_]), key=abs):
+                    yield ev(ifc, " ".join(a), ival(tb_, c))
+        for (v, first) in ((a, True), (b, False)):
+            if v[0] in (":m", ":s") and v[1] not in ("~", "$"):
+                x = bytes.fromhex(v[1][1:])
+                for y in (x[:-1], x[1:], x[:len(x) // 2]):
+                    w = "%s %s" % (v[0], tb(y))
+                    yield ev(ifc, w, " ".join(b)) if first else ev(ifc, " ".join(a), w)
+        return
     if t[0] == ":am":
         ar = bytes.fromhex(t[1][1:]); oa, la, ob, lb = (int(x, 16) for x in t[2:6])
         lo, hi = min(oa, ob), max(oa + la, ob + lb)
@@ -572,13 +816,17 @@ LEVEL_TEXT = ("Machine-checked (Coq) theorems over an executable model of MockNa
               "MockValue_c union; with and without default) is proved to hand back the exact stored integer or nothing, and a value of its own type only; for strings and memory buffers that share one allocation the model compares at "
               "addresses (MemCmp loop over one arena) and is proved to answer by length and content only, whatever the addresses; re-used value objects "
               "(a second / third store into one MockNamedValue, return value or setData slot) are modelled with the stale bytes of the union kept in the state, "
-              "and every read and both comparisons are proved to be functions of the last store only. Tied to the code by an exhaustive lattice + random differential run of the "
+              "and every read and both comparisons are proved to be functions of the last store only; by-content values at the edges of their representation "
+              "(a buffer given as (NULL, 0) on either side or both, empty windows at any address, the same object on both sides, a NULL char pointer) are run "
+              "at ADDRESSES in a memory with no object at 0, through equals, the C++ mock interface and the C table, and proved never to read outside an object "
+              "and to answer by length and content alone (two empty buffers equal whatever the addresses; a null-guarded MemCmp refuted). Tied to the code by an exhaustive lattice + random differential run of the "
               "extracted model against the real class, with the extracted spec evaluated on the implementation's answers.")
 LEVEL_NOTE = ("Trusted: Coq kernel, extraction (ExtrOcamlBasic), the harness and generators, LP64. Modelled not verified: the C++ itself; doubles other "
               "than NaN are decided by C03's model of doubles_equal; custom-type comparators are outside the model; the accessor forwarding table is "
               "hand-written and tied to the code by observation (spec constrains integer read-back only; the other accessors are compared with the model); "
               "the union layout of the re-used object (little endian, which bytes each setter writes) is hand-written too, and the harness decides a failed STRCMP_EQUAL "
-              "of a getter in a shell of its own (QuietShell: the library's StrCmp, no failure text) for the re-use scenarios. Flocq brings the stdlib axioms "
+              "of a getter in a shell of its own (QuietShell: the library's StrCmp, no failure text) for the re-use scenarios; the mock interfaces are modelled as "
+              "`the call is fulfilled iff expected.equals(actual)` (one expectation, one parameter) and observed as `the test did not fail`. Flocq brings the stdlib axioms "
               "classic, functional_extensionality_dep, sig_forall_dec, sig_not_dec (named by Print Assumptions in the evidence).")
 TECHNIQUE = "Coq proof over hand-written executable model + extracted-model/implementation correspondence check (differential, exhaustive boundary lattice)"
 READY = True
